@@ -46,13 +46,17 @@ func parseUrlPath(pathStr string, m meta.Definition) ([]*Path, error) {
 		}
 
 		// find meta associated with path ident
-		seg.Meta = meta.Find(p.Meta.(meta.HasDefinitions), ident)
+		parent, hasDefs := p.Meta.(meta.HasDefinitions)
+		if !hasDefs {
+			return nil, fmt.Errorf("%w. %s has nothing below it to find %s", fc.BadRequestError, p.Meta.Ident(), ident)
+		}
+		seg.Meta = meta.Find(parent, ident)
 		if seg.Meta == nil {
 			// check for fully qualified ident
 			if colon := strings.IndexRune(ident, ':'); colon > 0 {
 				module := ident[:colon]
 				ident = ident[colon+1:]
-				potential := meta.Find(p.Meta.(meta.HasDefinitions), ident)
+				potential := meta.Find(parent, ident)
 				if potential != nil {
 					if meta.OriginalModule(potential).Ident() == module {
 						seg.Meta = potential
@@ -64,7 +68,14 @@ func parseUrlPath(pathStr string, m meta.Definition) ([]*Path, error) {
 			return nil, fmt.Errorf("%w. %s not found in %s", fc.NotFoundError, ident, p.Meta.Ident())
 		}
 		if len(keyStrs) > 0 {
-			if seg.Key, err = NewValuesByString(seg.Meta.(*meta.List).KeyMeta(), keyStrs...); err != nil {
+			list, isList := seg.Meta.(*meta.List)
+			if !isList {
+				return nil, fmt.Errorf("%w. %s is not a list and has no key", fc.BadRequestError, ident)
+			}
+			if len(keyStrs) != len(list.KeyMeta()) {
+				return nil, fmt.Errorf("%w. list %s has %d keys, not %d", fc.BadRequestError, ident, len(list.KeyMeta()), len(keyStrs))
+			}
+			if seg.Key, err = NewValuesByString(list.KeyMeta(), keyStrs...); err != nil {
 				return nil, err
 			}
 		}
